@@ -537,6 +537,9 @@ func ParseTupleAndKeywords(args Tuple, kwargs StringDict, format string, kwlist 
 			}
 			*result = arg
 		case 'i', 'n':
+			if _, ok := arg.(*BigInt); ok {
+				return ExceptionNewf(OverflowError, "Python int too large to convert to C long")
+			}
 			if _, ok := arg.(Int); !ok {
 				return ExceptionNewf(TypeError, "%s() argument %d must be int, not %s", name, i+1, arg.Type().Name)
 			}
